@@ -35,9 +35,21 @@ class lock(object):
 
 
 def run(cmd, timeout=3600, cwd=LEAN_DIR, input=None):
-    p = subprocess.run(cmd, cwd=cwd, stdout=subprocess.PIPE, stderr=subprocess.STDOUT, text=True,
-                       timeout=timeout, input=input)
-    return p.returncode, p.stdout
+    """run a command in its own process group; on timeout the whole group (lake AND the lean processes it spawned) is killed
+    and a non-zero code is returned, so that a runaway elaboration is a failed build, never a hang that keeps the lock"""
+    import signal
+    p = subprocess.Popen(cmd, cwd=cwd, stdout=subprocess.PIPE, stderr=subprocess.STDOUT, text=True,
+                         stdin=subprocess.PIPE if input is not None else None, start_new_session=True)
+    try:
+        out, _ = p.communicate(input=input, timeout=timeout)
+        return p.returncode, out
+    except subprocess.TimeoutExpired:
+        try:
+            os.killpg(p.pid, signal.SIGKILL)
+        except OSError:
+            pass
+        out, _ = p.communicate()
+        return 124, (out or "") + "\nTIMEOUT after %ss: %s" % (timeout, " ".join(cmd))
 
 
 def regenerate():
@@ -47,7 +59,7 @@ def regenerate():
     return extract.regenerate(REPO, os.path.join(LEAN_DIR, "DendroModel", "Gen"))
 
 
-def build(targets, timeout=3600):
+def build(targets, timeout=1500):
     with lock():
         rc, out = run(["lake", "build"] + list(targets), timeout=timeout)
     return rc == 0, out
